@@ -97,14 +97,18 @@ CHECKS = {
         "property-based testing (Hypothesis): equivalence laws, hash "
         "consistency and agreement with a model equality on the ckl.values "
         "API and through interpreted programs; container scenarios over all "
-        "insertion orders",
+        "insertion orders; metamorphic mutation sequences (observed vs "
+        "unobserved twin)",
         "Generated pairs/triples with deliberately frequent equal-but-"
         "differently-represented partners and near misses are checked for "
         "the laws of ==, for a==b => equal hash, for agreement with a model "
         "equality (exact numeric via Fractions, structural, order-free), and "
         "for interchangeability in sets/maps/lists (membership, lookup, "
         "removal, difference, count) under sampled and, for <= 4 (5) "
-        "elements, all insertion orders. Sampling, not proof.",
+        "elements, all insertion orders; two containers built by the same "
+        "generated mutation sequence, one of them hashed / rendered / "
+        "compared between the steps, must be interchangeable. Sampling, not "
+        "proof.",
         "Trusted: the model equality key; NaN/inf and identity-compared "
         "kinds (functions, streams, nodes) are outside the domain.",
         "DESIGN.md section 5 C06",
@@ -116,7 +120,8 @@ CHECKS = {
         "Generated same-kind triples with related values (variants, prefixes, "
         "neighbours) are compared with a model order written from the "
         "statement, at API level (all order laws) and through the interpreter "
-        "(< <= > >= compare min max sorted, set / map-key enumeration); all "
+        "(< <= > >= compare min max sorted, set / map-key enumeration in "
+        "thirteen enumeration forms incl. comprehensions and spreads); all "
         "string pairs of length <= 2 over 5 critical characters "
         "exhaustively. Sampling, not proof.",
         "Trusted: the model order (numeric via Fractions, code points, "
@@ -126,7 +131,9 @@ CHECKS = {
     ),
     "C08": (
         "property-based testing (Hypothesis): render -> parse -> render round "
-        "trip, permutation-invariance of rendering, scalar format oracles",
+        "trip, permutation-invariance of rendering, scalar format oracles, "
+        "language-level equality of the round-tripped value, metamorphic "
+        "mutation sequences (rendering with vs without earlier observations)",
         "Generated data values with adversarial strings and decimals across "
         "all magnitudes (incl. every double by bit pattern) are rendered, "
         "the text is interpreted again and compared for model equality, deep "
@@ -134,7 +141,11 @@ CHECKS = {
         "permuted orders (all orders for <= 4/5 elements) and must render "
         "identically; ints/decimals/strings are checked against independent "
         "format oracles; a table of numeric-producing expressions must render "
-        "according to its type(). Two open findings (NULL map key, pattern "
+        "according to its type(); the language itself must call the "
+        "round-tripped value equal and keep one set element / map key for "
+        "it; generated mutation sequences must render the same whether or "
+        "not the container was rendered, hashed or converted between the "
+        "steps. Two open findings (NULL map key, pattern "
         "delimiter) are excluded by construction and reported as "
         "KNOWN-FINDING.",
         "Trusted: the independent string renderer and numeral regexes; the "
@@ -149,8 +160,10 @@ CHECKS = {
         "dangerous natives and a twin non-secure run as teeth check",
         "Every native name known to the binder (bind / alias / inside a "
         "function), every public symbol of every bundled module in the three "
-        "import forms, and about 350 programs that try to redefine or shadow "
-        "the secure flag before binding are run in fresh secure interpreters "
+        "import forms, about 350 programs that try to redefine or shadow "
+        "the secure flag before binding, and all 6 600 one- and two-step "
+        "sequences of plain / destructuring / compound assignments to the "
+        "flag are run in fresh secure interpreters "
         "(legacy and non-legacy) inside a canary directory; any monitored OS "
         "access other than reading module sources, any change of the canary, "
         "any reachable function of a dangerous class, or a changed base flag "
@@ -200,7 +213,9 @@ CHECKS = {
         "collection literals) over Hypothesis-generated programs",
         "Programs send generated sets/maps of strings and mixed scalars "
         "through about 100 iteration / conversion / spread / destructuring / "
-        "rendering / library paths; each batch is interpreted in 8 (thorough "
+        "rendering / library paths and through every base-environment "
+        "function applied directly to them in ten argument shapes (about "
+        "2 000 more paths, tie-prone key / cmp functions); each batch is interpreted in 8 (thorough "
         "32) fresh subprocesses with different hash seeds plus this process "
         "and all observable outcomes must be identical; permuting every "
         "collection literal must not change the outcome either. The workers "
@@ -213,15 +228,23 @@ CHECKS = {
     ),
     "C13": (
         "exhaustive pool sweep (itertools.product over a 29-value pool, "
-        "multiprocessing) of every function object and syntactic form with an "
-        "exception-class oracle; failures bucketed by signature",
+        "multiprocessing) of every function object and syntactic form, an "
+        "extreme-value sweep (non-finite decimals, huge ints, calendar "
+        "edges) and Hypothesis-generated argument values from source-text "
+        "tables, all with an exception-class oracle; failures bucketed by "
+        "signature (collect-and-continue)",
         "Every distinct function object of the base environments and bundled "
         "modules (about 220) x all argument tuples of arity <= 3 (quick: "
         "arity <= 2 exhaustive + 5 % of arity 3; thorough: all, ~2.5 million "
-        "calls) and about 130 syntactic forms x all operand tuples are "
-        "evaluated; anything but a proper value, a CklRuntimeError carrying a "
-        "language value, or a CklSyntaxError within the time budget is a "
-        "violation. Exhaustive over the pool, silent about values outside it.",
+        "calls) and about 150 syntactic forms x all operand tuples are "
+        "evaluated; the same functions and forms are fed 14 extreme values "
+        "(exhaustive at arity <= 2, patterned at 3) and generated arguments "
+        "(digit runs, format / source / regex / JSON fragments, nested "
+        "collections, odd callbacks, named and spread arguments); anything "
+        "but a proper value or a CklRuntimeError carrying a language value "
+        "within the time budget is a violation (a CklSyntaxError out of a "
+        "built-in too: catch cannot intercept it). Exhaustive over the "
+        "pools, sampled over the generated tables.",
         "Trusted: the pool as representative of value kinds and edge values; "
         "2 s / 20 s budgets as termination; scratch cwd/HOME.",
         "DESIGN.md section 5 C13",
@@ -258,12 +281,16 @@ CHECKS = {
     ),
     "C16": (
         "exhaustive pool sweep with before/after deep snapshots of all "
-        "arguments + Hypothesis-generated alias-graph scenarios checked "
-        "against a Python heap model",
+        "arguments and a result-identity oracle, the same on "
+        "Hypothesis-generated argument values + Hypothesis-generated "
+        "alias-graph scenarios checked against a Python heap model",
         "Part 1 enumerates every function object and syntactic form over the "
         "pool tuples that contain a mutable container (quick: arity <= 2 + "
         "sample; thorough: all) and reports any argument change not made by a "
-        "documented mutator on its first argument. Part 2 generates random "
+        "documented mutator on its first argument, and any container result "
+        "that is one of the argument objects unless the function is a "
+        "selector / own-kind conversion / mutator; the same on generated "
+        "argument values. Part 2 generates random "
         "sequences of definitions, aliases, nesting, mutators (also through "
         "parameters and closures) and non-mutating producers; the interpreter "
         "result for every variable must equal a heap model with reference "
